@@ -112,7 +112,7 @@ package gogen
 //@ prop C16
 //@ requires old != nil && old != addr(p.current.codeBlockCtx) && p.pkg != nil
 //@ requires 0 <= p.current.base && p.current.base <= len(p.stk.data)
-//@ assigns p.current.codeBlockCtx, p.stk.data, p.comments, p.current.label.Stmt, elems(p.current.stmts), p.pkg.commentedStmts, map(p.pkg.commentedStmts)
+//@ assigns p.current.codeBlockCtx, p.stk.data, when(p.current.label != nil, p.comments), when(p.current.label != nil, p.current.label.Stmt), when(p.current.label != nil, elems(p.current.stmts)), when(p.current.label != nil, p.pkg.commentedStmts), when(p.current.label != nil, map(p.pkg.commentedStmts))
 //@ ensures len(p.stk.data) == old(p.current.base)
 //@ ensures forall(i, 0, len(p.stk.data), p.stk.data[i] == old(p.stk.data[i]))
 //@ ensures p.current.codeBlockCtx == old(*old)
@@ -193,11 +193,16 @@ package gogen
 //@ ensures result == p
 
 //@ func (*funcBodyCtx).checkLabels
-//@ trusted
+//@ prop C10
 //@ readonly
+//@ requires cb != nil && mforall(k, p.labels, p.labels[k] != nil)
+//@ ghostset handleCodeErrorf reported
+//@ loop 0 invariant imp(mforall(k, p.labels, p.labels[k] != nil && p.labels[k].used), !ghost(reported))
+//@ ensures imp(mforall(k, p.labels, p.labels[k] != nil && p.labels[k].used), !ghost(reported))
 
 //@ func (*CodeBuilder).endFuncBody
 //@ prop C16
+//@ assigns p.current, p.stk.data, when(p.current.label != nil, p.comments), when(p.current.label != nil, p.current.label.Stmt), when(p.current.label != nil, elems(p.current.stmts)), when(p.current.label != nil, p.pkg.commentedStmts), when(p.current.label != nil, map(p.pkg.commentedStmts))
 //@ requires p.pkg != nil
 //@ requires 0 <= p.current.base && p.current.base <= len(p.stk.data)
 //@ ensures len(p.stk.data) == old(p.current.base)
@@ -335,3 +340,122 @@ package gogen
 //@ ensures imp((2 <= BKind(Resolve(typ)) && BKind(Resolve(typ)) <= 16) || (20 <= BKind(Resolve(typ)) && BKind(Resolve(typ)) <= 23), typeis(result.Val, *ast.BasicLit) && result.Val.(*ast.BasicLit).Kind == token.INT && result.Val.(*ast.BasicLit).Value == "0" && result.CVal == constant.MakeInt64(0))
 //@ ensures imp(BKind(Resolve(typ)) == 18 || IsNilable(Resolve(typ)), typeis(result.Val, *ast.Ident) && result.Val.(*ast.Ident).Name == "nil" && result.CVal == nil)
 //@ ensures imp(BKind(Resolve(typ)) < 0 && !IsNilable(Resolve(typ)), typeis(result.Val, *ast.CompositeLit) && result.CVal == nil)
+
+// ---------------------------------------------------------------------------
+// utilast_gengo.go — C10 terminating-statement analysis (spec: /verif/specs/c10_term.spec)
+
+//@ func unparen
+//@ prop C10
+//@ readonly
+//@ loop 0 invariant Unparen(x) == Unparen(entry(x))
+//@ ensures result == Unparen(x)
+
+//@ func (*termChecker).isPanicCall
+//@ prop C10
+//@ readonly
+//@ ensures result == IsPanicCall(c.panicCalls, x)
+
+//@ func hasBreak
+//@ prop C10
+//@ readonly
+//@ requires WfStmt(s)
+//@ ensures result == HasBreak(s, label, isTarget)
+
+//@ func hasBreakList
+//@ prop C10
+//@ readonly
+//@ requires WfList(list)
+//@ loop 0 invariant forall(k, 0, rangeidx + 1, !HasBreak(list[k], label, isTarget))
+//@ ensures result == HasBreakList(list, label, isTarget)
+
+//@ func (*termChecker).isTerminating
+//@ prop C10
+//@ readonly
+//@ requires WfStmt(s)
+//@ loop 0 invariant forall(k, 0, rangeidx + 1, CommOK(c.panicCalls, s.(*ast.SelectStmt).Body.List[k], label))
+//@ ensures result == Term(c.panicCalls, s, label)
+
+//@ func (*termChecker).isTerminatingList
+//@ prop C10
+//@ readonly
+//@ requires WfList(list)
+//@ loop 0 invariant 0 - 1 <= i && i < len(list) && TermList(c.panicCalls, list, len(list), label) == TermList(c.panicCalls, list, i + 1, label)
+//@ ensures result == TermList(c.panicCalls, list, len(list), label)
+
+//@ func (*termChecker).isTerminatingSwitch
+//@ prop C10
+//@ readonly
+//@ requires body != nil && WfClauses(body.List)
+//@ loop 0 invariant hasDefault == exists(k, 0, rangeidx + 1, body.List[k].(*ast.CaseClause).List == nil) && forall(k, 0, rangeidx + 1, ClauseOK(c.panicCalls, body.List[k], label))
+//@ ensures result == TermSwitch(c.panicCalls, body, label)
+
+// ---------------------------------------------------------------------------
+// func.go — C10 glue: when is "missing return" reported
+
+//@ func return0IfNeeded
+//@ prop C11
+//@ assigns elems(stmts)
+//@ ensures imp(len(stmts) > 0 && typeis(stmts[len(stmts)-1], *ast.ReturnStmt), result == stmts)
+//@ ensures imp(!(len(stmts) > 0 && typeis(stmts[len(stmts)-1], *ast.ReturnStmt)), len(result) == len(stmts) + 1 && typeis(result[len(result)-1], *ast.ReturnStmt) && forall(i, 0, len(stmts), result[i] == old(stmts[i])))
+
+//@ func (*Func).isInline
+//@ prop C10
+//@ readonly
+//@ ensures result == (p.arity1 != 0)
+
+//@ func (*CodeBuilder).handleCodeError
+//@ trusted
+//@ readonly
+
+//@ func (*CodeBuilder).handleCodeErrorf
+//@ trusted
+//@ readonly
+
+//@ func getSrcPos
+//@ readonly
+
+//@ func getSrcEnd
+//@ readonly
+
+//@ func (*Func).End
+//@ prop C10 C16
+//@ requires cb != nil && cb.pkg != nil && p.Func != nil && StkWf(cb)
+//@ requires imp(p.arity1 == 0, typeis(p.Type(), *types.Signature) && cb.current.label == nil)
+//@ assumecall isTerminating: WfStmt(arg_s)
+//@ ghostset handleCodeError[msg == "missing return"] missingReturn
+//@ assertcall isTerminating: checker.panicCalls == old(cb.current.panicCalls) && arg_label == "" && arg_s == asI(body, ast.Stmt)
+//@ assertcall isTerminating: imp(cate == AutoLambdaNormal, body.List == old(cb.current.stmts))
+//@ assertcall handleCodeError[msg == "missing return"]: cate == AutoLambdaNormal && t.Results().Len() > 0 && !Term(checker.panicCalls, asI(body, ast.Stmt), "")
+//@ assertload Func.decl: ghost(missingReturn) == (cate == AutoLambdaNormal && t.Results().Len() > 0 && !Term(checker.panicCalls, asI(body, ast.Stmt), ""))
+
+// ---------------------------------------------------------------------------
+// codebuild.go — C10 label bookkeeping
+
+//@ func emitGotoStmt
+//@ prop C02
+//@ requires cb != nil && cb.pkg != nil
+//@ assigns cb.comments, cb.current.label, cb.current.label.Stmt, cb.current.stmts, elems(cb.current.stmts), cb.pkg.commentedStmts, map(cb.pkg.commentedStmts)
+//@ ensures Appended1(cb)
+//@ ensures imp(old(cb.current.label) == nil, typeis(LastStmt(cb), *ast.BranchStmt) && LastStmt(cb).(*ast.BranchStmt).Tok == token.GOTO && LastStmt(cb).(*ast.BranchStmt).Label != nil && LastStmt(cb).(*ast.BranchStmt).Label.Name == name)
+
+//@ func (dbgPositioner).Position
+//@ trusted
+//@ readonly
+
+//@ func (*CodeBuilder).NewLabel
+//@ prop C10
+//@ requires p.pkg != nil && p.fset != nil && mforall(k, p.current.labels, p.current.labels[k] != nil)
+//@ ghostset handleCodeErrorf reported
+//@ ensures ghost(reported) == old(in(p.current.labels, name))
+//@ ensures imp(old(in(p.current.labels, name)), result == nil && p.current.labels == old(p.current.labels))
+//@ ensures imp(!old(in(p.current.labels, name)), result != nil && fresh(result) && in(p.current.labels, name) && p.current.labels[name] == result && !result.used)
+
+//@ func (*CodeBuilder).labelFlow
+//@ prop C10
+//@ ensures imp(l != nil, l.used)
+//@ ensures imp(l == nil, result0 == "" && result1 == nil)
+
+//@ func (*CodeBuilder).Goto
+//@ prop C10
+//@ requires l != nil && p.pkg != nil
+//@ ensures l.used
